@@ -32,7 +32,9 @@ TransTable(c) ==
 
 FName == <<116, 101, 120, 116>>     \* Run() names its input "text"
 
+(* `set x to matches <command>` compiles its command and is inert when run  *)
 CmdResult(c, cmd, t) ==
+  IF cmd.kind = "setmatches" THEN [ms |-> <<>>, firm |-> TRUE, undef |-> FALSE, noret |-> FALSE, why |-> ""] ELSE
   LET defs == IF Has(c, "defs") THEN c.defs ELSE <<>>
       E    == Expect(t, defs, cmd.body, cmd.amt)
   IN IF cmd.kind = "find" THEN [ms |-> E.ms, firm |-> E.firm, undef |-> FALSE, noret |-> FALSE, why |-> ""]
